@@ -11,7 +11,7 @@ namespace OPM.RunState
 
 /-! ## The UOD half leaves the M1 state alone except for `uwrite` -/
 
-theorem cancelU_base (o : OState) (u : UReq) : (cancelU o u).base = o.base := by
+theorem cancelU_base (tr : Bool) (o : OState) (u : UReq) : (cancelU tr o u).base = o.base := by
   unfold cancelU
   simp only []
   split
@@ -20,15 +20,15 @@ theorem cancelU_base (o : OState) (u : UReq) : (cancelU o u).base = o.base := by
     · rfl
     · split <;> rfl
 
-theorem foldl_cancelU_base (us : List UReq) (o : OState) : (us.foldl cancelU o).base = o.base := by
+theorem foldl_cancelU_base (tr : Bool) (us : List UReq) (o : OState) : (us.foldl (cancelU tr) o).base = o.base := by
   induction us generalizing o with
   | nil => rfl
   | cons u us ih => simp only [List.foldl_cons]; rw [ih, cancelU_base]
 
-theorem cancelUAll_base (o : OState) : (cancelUAll o).base = o.base := by
+theorem cancelUAll_base (pre : State) (o : OState) : (cancelUAll pre o).base = o.base := by
   unfold cancelUAll; split
   · rfl
-  · exact foldl_cancelU_base _ _
+  · exact foldl_cancelU_base _ _ _
 
 /-- the M1 part after `execUod`: unchanged, or one `uwrite` -/
 theorem execUod_base (cfg : Cfg) (o : OState) (u : UReq) :
@@ -45,10 +45,10 @@ theorem execUod_base (cfg : Cfg) (o : OState) (u : UReq) :
     · rfl
     · exfalso; apply hg; simp [h1, h2, hp]
   simp only []
-  have hb := foldl_cancelU_base
+  have hb := foldl_cancelU_base o.base.mgr.tracking
     (o.um.exec.filter (fun c => c.cmd == u.cmd && c.id != u.id && !o.um.done.contains c.id)) o
   generalize (o.um.exec.filter (fun c => c.cmd == u.cmd && c.id != u.id && !o.um.done.contains c.id)).foldl
-    cancelU o = o1 at hb ⊢
+    (cancelU o.base.mgr.tracking) o = o1 at hb ⊢
   split
   · left; exact hb
   · right
@@ -94,7 +94,7 @@ theorem cmdLoopO_ref {cfg : Cfg} {pm : Perm} (l : List AnyReq) (o : OState) :
         generalize execReq cfg o.base r = p at h1 ⊢
         obtain ⟨s1, raised⟩ := p
         simp only []
-        have h2 : abs (if (s1.cancels != o.base.cancels) = true then cancelUAll { o with base := s1 }
+        have h2 : abs (if (s1.cancels != o.base.cancels) = true then cancelUAll o.base { o with base := s1 }
             else { o with base := s1 }).base = abs s1 := by
           split
           · rw [cancelUAll_base]
@@ -158,7 +158,7 @@ theorem reqs_cmdLoopO (cfg : Cfg) (l : List AnyReq) (o : OState) :
           rcases h1 z hz with h | h
           · exact Or.inl h
           · exact Or.inr (h ▸ List.mem_cons_self)
-        have hb : (if (s1.cancels != o.base.cancels) = true then cancelUAll { o with base := s1 }
+        have hb : (if (s1.cancels != o.base.cancels) = true then cancelUAll o.base { o with base := s1 }
             else { o with base := s1 }).base = s1 := by
           split
           · rw [cancelUAll_base]
